@@ -110,6 +110,9 @@ def oracle_line(scn, exp, meta, got):
     if got == exp:
         return None, False
     if got is None:
+        if t == 'X':
+            return ('%s: expected "%s"; nothing was reported and the program stopped (a virtual_ptr was made and used)'
+                    % (describe(scn, meta), ' '.join(exp.split()[3:]))), False
         return 'the program stopped before: %s' % describe(scn, meta), False
     g, e = fields(got), fields(exp)
     if t == 'C' and got.split()[:3] == exp.split()[:3]:
